@@ -512,7 +512,36 @@ func TestC16(t *testing.T) {
 				}()
 				time.Sleep(time.Millisecond)
 				w.closeEnds(cc, side == 1, side == 0) // the remote end goes away
-				nc := &c16Conn{conn: wire.Dial(w.nodes[remote], w.nodes[local]), a: remote, b: local}
+				// Who dials meanwhile: the remote router again or, in half of the
+				// cases, a third router without a link to the closing side -
+				// preferably one that derives the same switch label as the router
+				// whose link is closing (the label is still registered until the
+				// close has finished).
+				dialler := remote
+				if c.Bool("slow.third") {
+					rl, rok := m.DeriveSwitchLabelFromIP(w.nodes[remote].IP())
+					var cand, same []int
+					for k := range w.nodes {
+						if k == local || k == remote || w.nodes[local].Peer.GetLink(w.nodes[k].IP()) != nil {
+							continue
+						}
+						cand = append(cand, k)
+						if kl, ok := m.DeriveSwitchLabelFromIP(w.nodes[k].IP()); ok && rok && kl == rl {
+							same = append(same, k)
+						}
+					}
+					if len(same) > 0 {
+						dialler = same[c.Pick("slow.third.same", len(same))]
+						c.Class("slow-close-while-a-router-with-the-same-derived-label-links")
+					} else if len(cand) > 0 {
+						dialler = cand[c.Pick("slow.third.any", len(cand))]
+						c.Class("slow-close-while-a-third-router-links")
+					}
+					if dialler != remote {
+						w.log("n%d dials n%d while that close is under way", dialler, local)
+					}
+				}
+				nc := &c16Conn{conn: wire.Dial(w.nodes[dialler], w.nodes[local]), a: dialler, b: local}
 				w.conns = append(w.conns, nc)
 				w.drive([]*c16Conn{nc}, true, -1)
 				select {
